@@ -665,6 +665,7 @@ func stdIntrinsics(e *Engine) map[string]intrinsic {
 	addFmt(e, m)
 	addRegexp(e, m)
 	addStrconv(e, m)
+	addJSON(e, m)
 	addReflect(e, m)
 	addMisc(e, m)
 	return m
